@@ -85,8 +85,9 @@ Proof.
     destruct (negb ok).
     { destruct (check_early s && negb (pool_of s id =? w_pool (watcher_of s id))%nat); apply BR; reflexivity. }
     destruct (nth_error (objs s) (w_pool (watcher_of s id))); [|apply BR; reflexivity].
-    cbn [created watchers closed]. split; [exact Hc|].
-    pose proof (G {| w_pc := WStore; w_pool := w_pool (watcher_of s id) |} eq_refl). lia.
+    destruct (store_late s); cbn [created watchers closed]; (split; [exact Hc|]).
+    + pose proof (G {| w_pc := WStore; w_pool := w_pool (watcher_of s id) |} eq_refl). lia.
+    + pose proof (G {| w_pc := WTop; w_pool := w_pool (watcher_of s id) |} eq_refl). lia.
   - (* Store *) apply andb_prop in He. destruct He as [Hr Hpc].
     assert (HC : isC (watcher_of s id) = 0%nat).
     { unfold isC. destruct (w_pc (watcher_of s id)); try discriminate. reflexivity. }
@@ -159,7 +160,8 @@ Record Lost (s : rstate) (id : nat) (pc : wpc) : Prop := {
   lost_open : closed s = false;
   lost_pc : w_pc (watcher_of s id) = pc;
   lost_pool : w_pool (watcher_of s id) = pool_of s id;
-  lost_obj : (pool_of s id < length (objs s))%nat }.
+  lost_obj : (pool_of s id < length (objs s))%nat;
+  lost_code : store_late s = false }.
 
 Lemma watcher_of_set : forall s id w, in_range s id = true -> watcher_of (set_watcher s id w) id = w.
 Proof.
@@ -169,19 +171,20 @@ Qed.
 Lemma lost_set : forall s id pc pc', Lost s id pc ->
   Lost (set_watcher s id {| w_pc := pc'; w_pool := w_pool (watcher_of s id) |}) id pc'.
 Proof.
-  intros s id pc pc' [Hr Ho Hp Hpool Hobj]. constructor.
+  intros s id pc pc' [Hr Ho Hp Hpool Hobj Hl]. constructor.
   - unfold in_range in *. cbn. rewrite upd_length. exact Hr.
   - exact Ho.
   - rewrite watcher_of_set by exact Hr. reflexivity.
   - rewrite watcher_of_set by exact Hr. cbn. exact Hpool.
   - exact Hobj.
+  - exact Hl.
 Qed.
 
 Lemma heal_wake : forall s id, Lost s id WSelect -> r_state s <> st_hr -> obj_alive s (pool_of s id) = false ->
   let s' := r_step s (WakeClose id) in
   Lost s' id WWait /\ r_state s' = r_state s /\ created s' = created s /\ bad s' = bad s /\ objs s' = objs s.
 Proof.
-  intros s id L Hs Ha. pose proof L as [Hr Ho Hp Hpool Hobj]. unfold r_step. cbn [r_enabled].
+  intros s id L Hs Ha. pose proof L as [Hr Ho Hp Hpool Hobj Hlate]. unfold r_step. cbn [r_enabled].
   rewrite Hr, Hp, Hpool, Ha. cbn [andb negb]. cbn [r_apply].
   apply Z.eqb_neq in Hs. rewrite Hs. rewrite Hpool, Nat.eqb_refl. cbn [negb]. rewrite andb_false_r.
   rewrite <- Hpool at 1.
@@ -192,7 +195,7 @@ Lemma heal_timer : forall s id, Lost s id WWait ->
   let s' := r_step s (TimerFires id) in
   Lost s' id WCompare /\ r_state s' = r_state s /\ created s' = created s /\ bad s' = bad s /\ objs s' = objs s.
 Proof.
-  intros s id L. pose proof L as [Hr Ho Hp Hpool Hobj]. unfold r_step. cbn [r_enabled].
+  intros s id L. pose proof L as [Hr Ho Hp Hpool Hobj Hlate]. unfold r_step. cbn [r_enabled].
   rewrite Hr, Hp, Ho. cbn [andb negb]. cbn [r_apply].
   split; [apply (lost_set s id WWait WCompare L) | cbn; auto].
 Qed.
@@ -201,39 +204,25 @@ Lemma heal_fail : forall s id, Lost s id WCompare ->
   let s' := r_step s (Compare id false) in
   Lost s' id WWait /\ r_state s' = r_state s /\ created s' = created s /\ bad s' = bad s /\ objs s' = objs s.
 Proof.
-  intros s id L. pose proof L as [Hr Ho Hp Hpool Hobj]. unfold r_step. cbn [r_enabled].
+  intros s id L. pose proof L as [Hr Ho Hp Hpool Hobj Hlate]. unfold r_step. cbn [r_enabled].
   rewrite Hr, Hp. cbn [andb]. cbn [r_apply]. rewrite Hpool, Nat.eqb_refl. cbn [negb]. rewrite !andb_false_r.
   rewrite <- Hpool at 1.
   split; [apply (lost_set s id WCompare WWait L) | cbn; auto].
 Qed.
 
-(* the dial succeeds: the replacement exists, not yet stored *)
-Lemma heal_dial : forall s id, Lost s id WCompare ->
+(* the dial succeeds and the replacement is stored, all in the critical section *)
+Lemma heal_ok : forall s id, Lost s id WCompare ->
   let s' := r_step s (Compare id true) in
-  in_range s' id = true /\ w_pc (watcher_of s' id) = WStore /\ w_pool (watcher_of s' id) = pool_of s' id /\
-  (pool_of s' id < length (objs s'))%nat /\ created s' = S (created s) /\ bad s' = bad s.
+  get_stream_r s' id = GsOk /\ w_pc (watcher_of s' id) = WTop /\ created s' = S (created s) /\ bad s' = bad s /\
+  obj_epoch s' (pool_of s' id) = r_epoch s.
 Proof.
-  intros s id L. pose proof L as [Hr Ho Hp Hpool Hobj]. unfold r_step. cbn [r_enabled].
+  intros s id L. pose proof L as [Hr Ho Hp Hpool Hobj Hlate]. unfold r_step. cbn [r_enabled].
   rewrite Hr, Hp. cbn [andb]. cbn [r_apply]. rewrite Hpool, Nat.eqb_refl. cbn [negb]. rewrite !andb_false_r.
   destruct (nth_error (objs s) (pool_of s id)) as [p|] eqn:Hn.
   2:{ apply nth_error_None in Hn. lia. }
-  assert (Hlt : (id < length (watchers s))%nat) by (unfold in_range in Hr; apply Nat.ltb_lt; exact Hr).
-  split. { unfold in_range in *. cbn [watchers]. rewrite upd_length. exact Hr. }
-  unfold watcher_of, pool_of. cbn [watchers pools objs created bad]. rewrite upd_length.
-  rewrite nth_upd_same by exact Hlt. cbn [w_pc w_pool]. unfold pool_of in Hobj. repeat split; auto.
-Qed.
-
-Lemma heal_store : forall s id,
-  in_range s id = true -> w_pc (watcher_of s id) = WStore -> w_pool (watcher_of s id) = pool_of s id ->
-  (pool_of s id < length (objs s))%nat ->
-  let s' := r_step s (Store id) in
-  get_stream_r s' id = GsOk /\ w_pc (watcher_of s' id) = WTop /\ created s' = created s /\ bad s' = bad s.
-Proof.
-  intros s id Hr Hp Hpool Hobj. unfold r_step. cbn [r_enabled]. rewrite Hr, Hp. cbn [andb r_apply]. rewrite Hpool.
-  destruct (nth_error (objs s) (pool_of s id)) as [p|] eqn:Hn.
-  2:{ apply nth_error_None in Hn. lia. }
-  unfold get_stream_r, obj_alive, pool_of, watcher_of. cbn.
-  rewrite (nth_error_upd_same _ _ _ _ _ Hn). cbn. rewrite Nat.eqb_refl.
+  rewrite Hlate.
+  unfold get_stream_r, obj_alive, obj_epoch, pool_of, watcher_of. cbn.
+  rewrite (nth_error_upd_same _ _ _ _ _ Hn). cbn. try rewrite Nat.eqb_refl.
   rewrite nth_upd_same by (unfold in_range in Hr; apply Nat.ltb_lt; exact Hr). cbn. auto.
 Qed.
 
@@ -242,27 +231,23 @@ Fixpoint retries (id : nat) (k : nat) : list revent :=
 
 Theorem heals : forall k s id,
   Lost s id WSelect -> r_state s <> st_hr -> obj_alive s (pool_of s id) = false ->
-  let s' := r_run ([WakeClose id; TimerFires id] ++ retries id k ++ [Compare id true; Store id]) s in
+  let s' := r_run ([WakeClose id; TimerFires id] ++ retries id k ++ [Compare id true]) s in
   get_stream_r s' id = GsOk /\ w_pc (watcher_of s' id) = WTop /\ created s' = S (created s) /\ bad s' = bad s.
 Proof.
   intros k s id L Hs Ha. cbn zeta.
-  change (r_run ([WakeClose id; TimerFires id] ++ retries id k ++ [Compare id true; Store id]) s)
-    with (r_run (retries id k ++ [Compare id true; Store id]) (r_step (r_step s (WakeClose id)) (TimerFires id))).
+  change (r_run ([WakeClose id; TimerFires id] ++ retries id k ++ [Compare id true]) s)
+    with (r_run (retries id k ++ [Compare id true]) (r_step (r_step s (WakeClose id)) (TimerFires id))).
   destruct (heal_wake s id L Hs Ha) as [L1 [_ [C1 [B1 _]]]].
   destruct (heal_timer _ id L1) as [L2 [_ [C2 [B2 _]]]].
   set (s2 := r_step (r_step s (WakeClose id)) (TimerFires id)) in *.
   assert (G : forall k s2, Lost s2 id WCompare ->
-            let s' := r_run (retries id k ++ [Compare id true; Store id]) s2 in
+            let s' := r_run (retries id k ++ [Compare id true]) s2 in
             get_stream_r s' id = GsOk /\ w_pc (watcher_of s' id) = WTop /\ created s' = S (created s2) /\ bad s' = bad s2).
   { clear. induction k as [|k IH]; intros s2 L; cbn zeta.
+    - cbn. destruct (heal_ok s2 id L) as [A [B [C [D _]]]]. auto.
     - cbn [retries app].
-      change (r_run [Compare id true; Store id] s2) with (r_step (r_step s2 (Compare id true)) (Store id)).
-      destruct (heal_dial s2 id L) as [A [B [C [D [E F]]]]].
-      destruct (heal_store _ id A B C D) as [G1 [G2 [G3 G4]]].
-      repeat split; auto; congruence.
-    - cbn [retries app].
-      change (r_run (Compare id false :: TimerFires id :: retries id k ++ [Compare id true; Store id]) s2)
-        with (r_run (retries id k ++ [Compare id true; Store id]) (r_step (r_step s2 (Compare id false)) (TimerFires id))).
+      change (r_run (Compare id false :: TimerFires id :: retries id k ++ [Compare id true]) s2)
+        with (r_run (retries id k ++ [Compare id true]) (r_step (r_step s2 (Compare id false)) (TimerFires id))).
       destruct (heal_fail s2 id L) as [L1 [_ [C1 [B1 _]]]].
       destruct (heal_timer _ id L1) as [L2 [_ [C2 [B2 _]]]].
       destruct (IH _ L2) as [A [B [C D]]]. cbn zeta in *.
@@ -294,148 +279,106 @@ Proof.
   unfold watcher_of. cbn. rewrite nth_upd_same by (unfold in_range in Hr; apply Nat.ltb_lt; exact Hr). reflexivity.
 Qed.
 
-(* no hot-restart event for pool id is handled between the end of the dial's critical section and
-   `pool.session.Store(session)` of that pool's watcher (two adjacent statements of the watcher) *)
-Definition store_atomic (s : rstate) (ev : revent) : bool :=
-  match ev with
-  | HREvent i _ _ => match w_pc (watcher_of s i) with WStore => false | _ => true end
-  | _ => true
-  end.
-Fixpoint run_store_atomic (evs : list revent) (s : rstate) : Prop :=
-  match evs with [] => True | ev :: r => store_atomic s ev = true /\ run_store_atomic r (r_step s ev) end.
+(* the code: identity check after the wait, dial and Store in one critical section.  Then no watcher is ever
+   at WStore, and a session is stored only into the pool object that passed the check a moment ago *)
+Record CodeInv (s : rstate) : Prop := {
+  ci_bad : bad s = 0%nat;
+  ci_early : check_early s = false;
+  ci_late : store_late s = false;
+  ci_nostore : forall id, in_range s id = true -> w_pc (watcher_of s id) <> WStore }.
 
-Lemma hr_event_pool_other : forall s i e ok j, i <> j -> pool_of (hr_event s i e ok) j = pool_of s j.
+Lemma hr_event_flags : forall s i e ok,
+  check_early (hr_event s i e ok) = check_early s /\ store_late (hr_event s i e ok) = store_late s.
 Proof.
-  intros s i e ok j Hne. unfold hr_event. destruct (closed s); [reflexivity|].
-  destruct ((r_state s =? st_hr) && negb (r_epoch s =? e)); [reflexivity|].
+  intros. unfold hr_event. destruct (closed s); [auto|].
+  destruct ((r_state s =? st_hr) && negb (r_epoch s =? e)); [auto|].
   destruct (r_state s =? st_hr); cbn.
-  - destruct (nth_error (reserve s) i) as [[o|]|]; cbn; try reflexivity; destruct ok; cbn; try reflexivity;
-      unfold pool_of; cbn; apply nth_upd_other; exact Hne.
-  - destruct (nth_error (repeat None (length (pools s))) i) as [[o|]|]; cbn; try reflexivity; destruct ok; cbn; try reflexivity;
-      unfold pool_of; cbn; apply nth_upd_other; exact Hne.
+  - destruct (nth_error (reserve s) i) as [[o|]|]; cbn; auto; destruct ok; cbn; auto.
+  - destruct (nth_error (repeat None (length (pools s))) i) as [[o|]|]; cbn; auto; destruct ok; cbn; auto.
 Qed.
 
-Lemma hr_event_early : forall s i e ok, check_early (hr_event s i e ok) = check_early s.
+Lemma codeinv_set : forall s id w, CodeInv s -> in_range s id = true -> w_pc w <> WStore -> CodeInv (set_watcher s id w).
 Proof.
-  intros. unfold hr_event. destruct (closed s); [reflexivity|].
-  destruct ((r_state s =? st_hr) && negb (r_epoch s =? e)); [reflexivity|].
-  destruct (r_state s =? st_hr); cbn.
-  - destruct (nth_error (reserve s) i) as [[o|]|]; cbn; try reflexivity; destruct ok; reflexivity.
-  - destruct (nth_error (repeat None (length (pools s))) i) as [[o|]|]; cbn; try reflexivity; destruct ok; reflexivity.
+  intros s id w [B E L N] Hr Hw. constructor; cbn; auto.
+  intros j Hj. unfold in_range in *. cbn in Hj. rewrite upd_length in Hj.
+  unfold watcher_of in *. cbn. destruct (Nat.eq_dec id j) as [->|Hne].
+  - rewrite nth_upd_same by (apply Nat.ltb_lt; exact Hr). exact Hw.
+  - rewrite nth_upd_other by exact Hne. apply N. exact Hj.
 Qed.
 
-(* a watcher that holds a dialled, not yet stored session still holds the pool object that is sm.pools[id] *)
-Record StoreInv (s : rstate) : Prop := {
-  si_bad : bad s = 0%nat;
-  si_early : check_early s = false;
-  si_store : forall id, in_range s id = true -> w_pc (watcher_of s id) = WStore -> w_pool (watcher_of s id) = pool_of s id }.
-
-Lemma storeinv_set : forall s id w, StoreInv s -> in_range s id = true ->
-  (w_pc w = WStore -> w_pool w = pool_of s id) -> StoreInv (set_watcher s id w).
+Lemma step_codeinv : forall s ev, CodeInv s -> CodeInv (r_step s ev).
 Proof.
-  intros s id w [B E S] Hr Hw. constructor; cbn; auto.
-  intros j Hj Hpc. unfold in_range in *. cbn in Hj. rewrite upd_length in Hj.
-  unfold watcher_of, pool_of in *. cbn in *. destruct (Nat.eq_dec id j) as [->|Hne].
-  - rewrite nth_upd_same in * by (apply Nat.ltb_lt; exact Hr). apply Hw. exact Hpc.
-  - rewrite nth_upd_other in * by exact Hne. apply S; assumption.
-Qed.
-
-Lemma step_storeinv : forall s ev, StoreInv s -> store_atomic s ev = true -> StoreInv (r_step s ev).
-Proof.
-  intros s ev H Ha. pose proof H as [B E S]. unfold r_step. destruct (r_enabled s ev) eqn:He; [|exact H].
-  assert (SAME : forall s', bad s' = bad s -> check_early s' = check_early s -> watchers s' = watchers s ->
-                 pools s' = pools s -> StoreInv s').
-  { intros s' Hb Hc Hw Hp. constructor; [congruence | congruence|].
-    intros j Hj Hpc. unfold in_range, watcher_of, pool_of in *. rewrite Hw, Hp in *. apply S; assumption. }
+  intros s ev H. pose proof H as [B E L N]. unfold r_step. destruct (r_enabled s ev) eqn:He; [|exact H].
+  assert (SAME : forall s', bad s' = bad s -> check_early s' = check_early s -> store_late s' = store_late s ->
+                 watchers s' = watchers s -> CodeInv s').
+  { intros s' Hb Hc Hl Hw. constructor; try congruence.
+    intros j Hj. unfold in_range, watcher_of in *. rewrite Hw in *. apply N. exact Hj. }
   destruct ev; cbn [r_apply]; cbn [r_enabled] in He.
   - apply andb_prop in He. destruct He as [Hr _]. destruct (r_state s =? st_hr); [exact H|].
-    apply storeinv_set; auto; try (cbn; discriminate).
+    apply codeinv_set; auto; cbn; discriminate.
   - apply andb_prop in He. destruct He as [He _]. apply andb_prop in He. destruct He as [Hr _].
-    destruct (r_state s =? st_hr); [apply storeinv_set; auto; try (cbn; discriminate)|].
-    destruct (check_early s && negb (pool_of s id =? w_pool (watcher_of s id))%nat); apply storeinv_set; auto; try (cbn; discriminate).
+    destruct (r_state s =? st_hr); [apply codeinv_set; auto; cbn; discriminate|].
+    destruct (check_early s && negb (pool_of s id =? w_pool (watcher_of s id))%nat); apply codeinv_set; auto; cbn; discriminate.
   - apply andb_prop in He. destruct He as [He _]. apply andb_prop in He. destruct He as [Hr _].
-    apply storeinv_set; auto; try (cbn; discriminate).
+    apply codeinv_set; auto; cbn; discriminate.
   - apply andb_prop in He. destruct He as [He _]. apply andb_prop in He. destruct He as [Hr _].
-    apply storeinv_set; auto; try (cbn; discriminate).
-  - (* Compare: the dial happens only if the identity check, made in the same critical section, passed *)
+    apply codeinv_set; auto; cbn; discriminate.
+  - (* Compare: the session is stored only if the identity check of the same critical section passed *)
     apply andb_prop in He. destruct He as [Hr _]. rewrite E. cbn [negb andb].
-    destruct (negb (pool_of s id =? w_pool (watcher_of s id))%nat) eqn:Hid; [apply storeinv_set; auto; try (cbn; discriminate)|].
-    destruct (negb ok); [apply storeinv_set; auto; try (cbn; discriminate)|].
-    destruct (nth_error (objs s) (w_pool (watcher_of s id))); [|apply storeinv_set; auto; try (cbn; discriminate)].
-    apply negb_false_iff in Hid. apply Nat.eqb_eq in Hid.
+    destruct (negb (pool_of s id =? w_pool (watcher_of s id))%nat) eqn:Hid; [apply codeinv_set; auto; cbn; discriminate|].
+    destruct (negb ok); [apply codeinv_set; auto; cbn; discriminate|].
+    destruct (nth_error (objs s) (w_pool (watcher_of s id))); [|apply codeinv_set; auto; cbn; discriminate].
+    rewrite L. apply negb_false_iff in Hid. apply Nat.eqb_eq in Hid.
     constructor; cbn; auto.
-    intros j Hj Hpc. unfold in_range in *. cbn in Hj. rewrite upd_length in Hj.
-    unfold watcher_of, pool_of in *. cbn in *. destruct (Nat.eq_dec id j) as [->|Hne].
-    + rewrite nth_upd_same by (apply Nat.ltb_lt; exact Hr). cbn. congruence.
-    + rewrite nth_upd_other in * by exact Hne. apply S; assumption.
-  - (* Store *)
-    apply andb_prop in He. destruct He as [Hr Hpc].
-    assert (Hst : w_pc (watcher_of s id) = WStore) by (destruct (w_pc (watcher_of s id)); try discriminate; reflexivity).
-    pose proof (S id Hr Hst) as Heq.
-    destruct (nth_error (objs s) (w_pool (watcher_of s id))); [|apply storeinv_set; auto; try (cbn; discriminate)].
-    constructor; cbn; auto.
-    + rewrite Heq, Nat.eqb_refl. exact B.
-    + intros j Hj Hpcj. unfold in_range in *. cbn in Hj. rewrite upd_length in Hj.
-      unfold watcher_of, pool_of in *. cbn in *. destruct (Nat.eq_dec id j) as [->|Hne].
-      * rewrite nth_upd_same in Hpcj by (apply Nat.ltb_lt; exact Hr). discriminate.
-      * rewrite nth_upd_other in * by exact Hne. apply S; assumption.
+    + rewrite <- Hid, Nat.eqb_refl. exact B.
+    + intros j Hj. unfold in_range in *. cbn in Hj. rewrite upd_length in Hj.
+      unfold watcher_of in *. cbn. destruct (Nat.eq_dec id j) as [->|Hne].
+      * rewrite nth_upd_same by (apply Nat.ltb_lt; exact Hr). cbn. discriminate.
+      * rewrite nth_upd_other by exact Hne. apply N. exact Hj.
+  - (* Store: no watcher is there *)
+    exfalso. apply andb_prop in He. destruct He as [Hr Hpc]. apply (N id Hr).
+    destruct (w_pc (watcher_of s id)); try discriminate. reflexivity.
   - apply SAME; reflexivity.
-  - (* HREvent: may swap sm.pools[i]; not while watcher i holds an unstored session *)
-    cbn [store_atomic] in Ha.
-    destruct (hr_event_frame s i e ok) as [Hw [_ [_ Hb]]].
-    constructor; [congruence | rewrite hr_event_early; exact E|].
-    intros j Hj Hpc. unfold in_range, watcher_of in *. rewrite Hw in *.
-    destruct (Nat.eq_dec i j) as [->|Hne].
-    + unfold watcher_of in Ha. rewrite Hpc in Ha. discriminate.
-    + rewrite hr_event_pool_other by exact Hne. apply S; assumption.
+  - destruct (hr_event_frame s i e ok) as [Hw [_ [_ Hb]]]. destruct (hr_event_flags s i e ok) as [F1 F2].
+    apply SAME; congruence.
   - destruct (count_some (reserve s) =? length (pools s))%nat; [apply SAME; reflexivity | exact H].
   - apply SAME; reflexivity.
   - destruct (cprog s) as [|c rest]; [exact H|]. destruct c; apply SAME; reflexivity.
   - exact H.
 Qed.
 
-Lemma init_storeinv : forall n, StoreInv (r_init n).
+Lemma init_codeinv : forall n, CodeInv (r_init n).
 Proof.
-  intro n. constructor; [reflexivity | reflexivity|].
-  intros id Hr Hpc. exfalso. unfold in_range, watcher_of in *. cbn in *. rewrite repeat_length in Hr.
+  intro n. constructor; try reflexivity.
+  intros id Hr Hpc. unfold in_range, watcher_of in *. cbn in *. rewrite repeat_length in Hr.
   apply Nat.ltb_lt in Hr. revert id Hr Hpc. induction n; intros [|id] H1 H2; cbn in *; try lia; try discriminate.
   apply (IHn id); [lia | exact H2].
 Qed.
 
-(* no watcher ever stores a rebuilt session into a pool object that is no longer sm.pools[id] — for every
-   history in which the watcher's dial section and its Store are not separated by a hot-restart event for
-   that pool *)
-Theorem not_twice_partial : forall n evs, run_store_atomic evs (r_init n) -> bad (r_run evs (r_init n)) = 0%nat.
+(* for ALL histories: no watcher ever stores a rebuilt session into a pool object that is no longer
+   sm.pools[id] *)
+Theorem not_twice_full : forall n evs, bad (r_run evs (r_init n)) = 0%nat.
 Proof.
-  intros n evs.
-  assert (G : forall evs s, StoreInv s -> run_store_atomic evs s -> StoreInv (r_run evs s)).
-  { induction evs0 as [|ev r IH]; intros s Hs Hr; [exact Hs|].
-    change (r_run (ev :: r) s) with (r_run r (r_step s ev)). destruct Hr as [H1 H2].
-    apply IH; [apply step_storeinv; assumption | exact H2]. }
-  intro H. apply (si_bad _ (G evs (r_init n) (init_storeinv n) H)).
+  intros n evs. apply (ci_bad _ (r_run_inv CodeInv step_codeinv evs (r_init n) (init_codeinv n))).
 Qed.
 
-(* without that hypothesis: the handler swaps the pool after the watcher released the lock and before it
-   stored — the replacement goes into the pool that has just been parked *)
+(* the order before the repair (Store after sm.Unlock()): the handler swaps the pool after the watcher
+   released the lock and before it stored — the replacement goes into the pool that has just been parked *)
 Definition store_race_history : list revent :=
   [WLoad 0; SessionLost 0; WakeClose 0; TimerFires 0; Compare 0 true; HREvent 0 5 true; Store 0].
-
-Theorem not_twice_refuted : ~ (forall n evs, bad (r_run evs (r_init n)) = 0%nat).
-Proof. intro H. specialize (H 1%nat store_race_history). vm_compute in H. discriminate. Qed.
 
 (* the session lost, the hot-restart event for that pool handled DURING the rebuild wait *)
 Definition swap_during_wait_history : list revent :=
   [WLoad 0; SessionLost 0; WakeClose 0; HREvent 0 5 true; TimerFires 0; Compare 0 true; Store 0].
 
-(* a session stored by a watcher goes into the pool object that is sm.pools[id], or is counted as bad *)
-Theorem rebuild_into_current : forall s id,
-  bad (r_step s (Store id)) = bad s -> r_enabled s (Store id) = true ->
-  (w_pool (watcher_of s id) < length (objs s))%nat -> w_pool (watcher_of s id) = pool_of s id.
+(* a session created by a watcher goes into the pool object that is sm.pools[id] at that moment *)
+Theorem rebuild_into_current : forall s id ok, check_early s = false ->
+  created (r_step s (Compare id ok)) = S (created s) -> w_pool (watcher_of s id) = pool_of s id.
 Proof.
-  intros s id Hb He Hlt. unfold r_step in Hb. rewrite He in Hb. cbn [r_apply] in Hb.
-  destruct (nth_error (objs s) (w_pool (watcher_of s id))) eqn:Hn.
-  - cbn in Hb. destruct (w_pool (watcher_of s id) =? pool_of s id)%nat eqn:E; [apply Nat.eqb_eq; exact E | lia].
-  - apply nth_error_None in Hn. lia.
+  intros s id ok Hce. unfold r_step. destruct (r_enabled s (Compare id ok)); [|intro X; exfalso; lia].
+  cbn [r_apply]. rewrite Hce. cbn [negb andb].
+  destruct (negb (pool_of s id =? w_pool (watcher_of s id))%nat) eqn:Hc; [cbn; intro X; exfalso; lia|].
+  intros _. apply negb_false_iff in Hc. apply Nat.eqb_eq in Hc. congruence.
 Qed.
 
 (* the former witness of the epoch comparison: HotRestart(0) on a manager whose sessions have epoch 0 *)
@@ -632,7 +575,7 @@ Proof.
   - destruct (negb (check_early s) && negb (pool_of s id =? w_pool (watcher_of s id))%nat); [reflexivity|].
     destruct (negb ok).
     + destruct (check_early s && negb (pool_of s id =? w_pool (watcher_of s id))%nat); reflexivity.
-    + destruct (nth_error (objs s) (w_pool (watcher_of s id))); reflexivity.
+    + destruct (nth_error (objs s) (w_pool (watcher_of s id))); [destruct (store_late s)|]; reflexivity.
   - destruct (nth_error (objs s) (w_pool (watcher_of s id))); reflexivity.
   - unfold hr_event. destruct (closed s); [reflexivity|].
     destruct ((r_state s =? st_hr) && negb (r_epoch s =? e)); [reflexivity|].
@@ -705,4 +648,4 @@ Definition close_race_history : list revent :=
    replacement after the pools were closed; Close returns with a live session in the pool *)
 Definition seeded_close_prog : list cstep := [CCancel; CCloseAll; CWait].
 Definition inflight_history : list revent :=
-  [WLoad 0; SessionLost 0; WakeClose 0; TimerFires 0; CloseStep; CloseStep; Compare 0 true; Store 0; WLoad 0; WakeCtx 0; CloseStep].
+  [WLoad 0; SessionLost 0; WakeClose 0; TimerFires 0; CloseStep; CloseStep; Compare 0 true; WLoad 0; WakeCtx 0; CloseStep].
